@@ -69,7 +69,7 @@ type Node struct {
 	mu        sync.Mutex
 	seqs      map[string]int64 // family indicator -> last committed replica sequence
 	acked     map[string]bool  // families with a registered ack callback
-	lastTick  int64 // fasttime.UnixNano() observed at the last write that may have created a memory database
+	lastTick  int64            // fasttime.UnixNano() observed at the last write that may have created a memory database
 	closed    bool
 	writeLock sync.Mutex // serialises Write calls per node unless WriteConcurrent is used
 }
